@@ -160,7 +160,13 @@ func isWellFormedMathFragment(s string) bool {
 		case xml.StartElement:
 			depth++
 			used = append(used, t.Name.Space)
+			seen := map[xml.Name]bool{}
 			for _, attr := range t.Attr {
+				// encoding/xml accepts a repeated attribute; XML does not
+				if seen[attr.Name] {
+					return false
+				}
+				seen[attr.Name] = true
 				if attr.Name.Space == "xmlns" {
 					bound[attr.Name.Local] = true
 				} else if attr.Name.Space != "" {
